@@ -596,9 +596,12 @@ func (w *w1World) checkClientLog(cl *w1SimClient) {
 			w.checkFilterAndDelta(in)
 		}
 	}
-	// ---- C01
+	// ---- C01 / C38
 	for _, in := range instances {
 		if !chPositioned(in.ch) {
+			if chHas(in.ch, 'm') {
+				w.checkMediumOrder(in)
+			}
 			continue
 		}
 		w.checkPositioned(in)
@@ -634,17 +637,21 @@ func (w *w1World) checkPositioned(in *w1Instance) {
 	if r == nil {
 		return
 	}
-	s.Probe("nontrivial:C01")
+	prop := "C01"
+	if chHas(in.ch, 'm') {
+		prop = "C38" // channel medium in front of the hub: same delivery guarantees
+	}
+	s.Probe("nontrivial:" + prop)
 	startOff := r.Offset // reply offset; equals the request offset when recovered
 	epoch := r.Epoch
 	last := startOff
 	for i, p := range in.pubs {
 		if p.Offset == 0 {
-			s.Violate("C01", "unpositioned-pub", "publication without offset on positioned subscription", "client %d %s: publication %d of the instance has offset 0", in.cl.idx, in.ch, i)
+			s.Violate(prop, "unpositioned-pub", "publication without offset on positioned subscription", "client %d %s: publication %d of the instance has offset 0", in.cl.idx, in.ch, i)
 			continue
 		}
 		if p.Offset <= last {
-			s.Violate("C01", "offset-not-increasing", "duplicate or reordered offset"+w.rnq(), "client %d %s: received offset %d after %d", in.cl.idx, in.ch, p.Offset, last)
+			s.Violate(prop, "offset-not-increasing", "duplicate or reordered offset"+w.rnq(), "client %d %s: received offset %d after %d", in.cl.idx, in.ch, p.Offset, last)
 			continue
 		}
 		filteredGap := true
@@ -655,15 +662,44 @@ func (w *w1World) checkPositioned(in *w1Instance) {
 			}
 		}
 		if p.Offset != last+1 && !filteredGap {
-			s.Violate("C01", "gap", "gap in delivered offsets"+w.rnq(), "client %d %s: received offset %d after %d (start %d, recovered=%v) without an insufficient-state end", in.cl.idx, in.ch, p.Offset, last, startOff, r.Recovered)
+			s.Violate(prop, "gap", "gap in delivered offsets"+w.rnq(), "client %d %s: received offset %d after %d (start %d, recovered=%v) without an insufficient-state end", in.cl.idx, in.ch, p.Offset, last, startOff, r.Recovered)
 		}
 		if t := w.truth(in.ch, p.Offset, epoch); t != nil && !p.Delta && t.Data != p.Data {
-			s.Violate("C01", "wrong-data", "payload differs from published", "client %d %s offset %d: got %s, published %s", in.cl.idx, in.ch, p.Offset, p.Data, t.Data)
+			s.Violate(prop, "wrong-data", "payload differs from published", "client %d %s offset %d: got %s, published %s", in.cl.idx, in.ch, p.Offset, p.Data, t.Data)
 		}
 		last = p.Offset
 	}
 	if len(in.pubs) > 0 {
 		s.Probe("c01_pubs_delivered")
+	}
+}
+
+// checkMediumOrder: per-channel order for a non-positioned subscription behind the
+// channel medium: a publication whose Publish call returned before another one's began
+// must not be delivered after it, and nothing is delivered twice.
+func (w *w1World) checkMediumOrder(in *w1Instance) {
+	s := w.s
+	var recs []*w1PubRec
+	seen := map[string]bool{}
+	for _, p := range in.pubs {
+		for _, t := range w.pubs {
+			if t.Ch == in.ch && t.Data == p.Data {
+				if seen[t.Data] {
+					s.Violate("C38", "duplicate", "publication delivered twice through the channel medium", "client %d %s: %s delivered twice", in.cl.idx, in.ch, t.Data)
+				}
+				seen[t.Data] = true
+				recs = append(recs, t)
+			}
+		}
+	}
+	if len(recs) > 1 {
+		s.Probe("nontrivial:C38")
+	}
+	for i := 1; i < len(recs); i++ {
+		a, b := recs[i-1], recs[i]
+		if b.RetSeq != 0 && b.RetSeq < a.Seq {
+			s.Violate("C38", "order", "publications reordered by the channel medium", "client %d %s: %s (publish returned at %d) delivered after %s (publish began at %d)", in.cl.idx, in.ch, b.Data, b.RetSeq, a.Data, a.Seq)
+		}
 	}
 }
 
